@@ -13,6 +13,7 @@ from decimal import Decimal
 from types import ModuleType
 from typing import cast, Any, Optional, Union
 from xml.etree import ElementTree
+from copy import copy
 
 from elementpath.exceptions import ElementPathError, xpath_error
 from elementpath.namespaces import XSLT_XQUERY_SERIALIZATION_NAMESPACE
@@ -309,17 +310,21 @@ def serialize_to_xml(elements: Iterable[Any],
             chunks.append(item)
             continue
 
+        if elem.tail:
+            elem = copy(elem)  # the tail is not part of the element node
+            elem.tail = None
+
         try:
             cks = etree_module.tostringlist(
                 elem, encoding='utf-8', method=method, **kwargs
             )
         except TypeError:
             ck = etree_module.tostring(elem, encoding='utf-8', method=method)
-            chunks.append(ck.decode('utf-8').rstrip(elem.tail))
+            chunks.append(ck.decode('utf-8'))
         else:
             if cks and cks[0].startswith(b'<?'):
                 cks[0] = cks[0].replace(b'\'', b'"')
-            chunks.append(b'\n'.join(cks).decode('utf-8').rstrip(elem.tail))
+            chunks.append(b'\n'.join(cks).decode('utf-8'))
 
     if not character_map:
         return (item_separator or '').join(chunks)
